@@ -30,6 +30,7 @@ pub const ENTRIES: [Entry; 4] = [Entry::ParsePartial, Entry::CheckPartial, Entry
 
 pub fn check_sub(ctx: &mut Ctx, gi: &GInfo, rule: usize, host: &str, a: usize, b: usize) -> CaseResult {
     ctx.ev.eval();
+    ctx.progress.fetch_add(1, std::sync::atomic::Ordering::Relaxed);
     let name = gi.rules[rule].0.clone();
     if !well_founded(ctx, gi, rule, host, a, b) || !well_founded(ctx, gi, rule, host, a, host.len()) {
         return CaseResult::Ok;
